@@ -10,6 +10,8 @@
 //! case = {"id", "cfg": {"mode", "nsrc"}, "script": [cmd..]}
 //! cmd = ["build", ty, reaction, cond] | ["trigger", src, ty, n] | ["trigger_noop", src, ty, n] |
 //!       ["wait", b] | ["drop_handle", h] | ["drop_barrier", b] |
+//!       ["abandon", src]  (the source gives up the trigger call it is parked in: select! with a cancel signal) |
+//!       ["kill", src]     (the source itself is dropped: JoinHandle::abort / Sim::crash of the host) |
 //!       ["corrupt_read", src, n]  (sim mode: the source reads one byte at offset n of its file with
 //!                                  corruption_probability 1, so turmoil-fs fires the corruption hook,
 //!                                  i.e. trigger_noop(FsCorruption{offset: n, ..}), synchronously)
@@ -17,7 +19,7 @@
 //!   cond = ["any"] | ["never"] | ["eq",k] | ["gt",k] | ["mod",m,r]
 //! After every command the harness lets the sources run until quiescent and
 //! records, per source, (trigger calls started, trigger calls returned, task finished).
-//! obs per command = [result, [[started, returned, finished]..]]
+//! obs per command = [result, [[started, returned, finished, abandoned, killed]..]]
 
 use futures_util::FutureExt;
 use serde_json::{json, Value};
@@ -77,8 +79,11 @@ enum SrcCmd {
 struct Src {
     q: RefCell<VecDeque<SrcCmd>>,
     notify: Notify,
+    cancel: Notify,
     started: Cell<u64>,
     returned: Cell<u64>,
+    abandoned: Cell<u64>,
+    killed: Cell<bool>,
 }
 
 async fn source_loop(s: Rc<Src>) {
@@ -90,8 +95,18 @@ async fn source_loop(s: Rc<Src>) {
         };
         s.started.set(s.started.get() + 1);
         match cmd {
-            SrcCmd::Trig(0, n) => trigger(TA(n)).await,
-            SrcCmd::Trig(_, n) => trigger(TB(n)).await,
+            SrcCmd::Trig(ty, n) => {
+                // like `timeout(.., trigger(..))`: the call can be given up while parked
+                let gave_up = tokio::select! {
+                    biased;
+                    _ = async { if ty == 0 { trigger(TA(n)).await } else { trigger(TB(n)).await } } => false,
+                    _ = s.cancel.notified() => true,
+                };
+                if gave_up {
+                    s.abandoned.set(s.abandoned.get() + 1);
+                    continue;
+                }
+            }
             SrcCmd::Noop(0, n) => trigger_noop(TA(n)),
             SrcCmd::Noop(_, n) => trigger_noop(TB(n)),
             SrcCmd::CorruptRead(n) => {
@@ -141,7 +156,7 @@ impl Test {
             "trigger" | "trigger_noop" | "corrupt_read" => {
                 let s = c[1].as_u64().unwrap() as usize;
                 let src = &srcs[s];
-                if src.started.get() != src.returned.get() || finished(s) {
+                if src.started.get() != src.returned.get() + src.abandoned.get() || finished(s) || src.killed.get() {
                     return json!("busy");
                 }
                 let (ty, n) = (c[2].as_u64().unwrap(), c.get(3).and_then(|x| x.as_u64()).unwrap_or(0));
@@ -154,6 +169,15 @@ impl Test {
                 });
                 src.notify.notify_one();
                 json!("sent")
+            }
+            "abandon" => {
+                let s = c[1].as_u64().unwrap() as usize;
+                let src = &srcs[s];
+                if src.started.get() == src.returned.get() + src.abandoned.get() || finished(s) || src.killed.get() {
+                    return json!("idle");
+                }
+                src.cancel.notify_one();
+                json!("cancelled")
             }
             "wait" => {
                 let b = c[1].as_u64().unwrap() as usize;
@@ -215,7 +239,7 @@ fn states(srcs: &[Rc<Src>], finished: &dyn Fn(usize) -> bool) -> Value {
     json!(srcs
         .iter()
         .enumerate()
-        .map(|(i, s)| json!([s.started.get(), s.returned.get(), finished(i)]))
+        .map(|(i, s)| json!([s.started.get(), s.returned.get(), finished(i), s.abandoned.get(), s.killed.get()]))
         .collect::<Vec<_>>())
 }
 
@@ -225,8 +249,11 @@ fn new_srcs(n: usize) -> Vec<Rc<Src>> {
             Rc::new(Src {
                 q: RefCell::new(VecDeque::new()),
                 notify: Notify::new(),
+                cancel: Notify::new(),
                 started: Cell::new(0),
                 returned: Cell::new(0),
+                abandoned: Cell::new(0),
+                killed: Cell::new(false),
             })
         })
         .collect()
@@ -244,7 +271,16 @@ fn run_local(case: &Value) -> Value {
         let finished = |i: usize| joins[i].is_finished();
         let mut test = Test { barriers: vec![], handles: vec![] };
         for c in case["script"].as_array().unwrap() {
-            let r = test.cmd(c, &srcs, &finished);
+            let r = if c[0] == "kill" {
+                let i = c[1].as_u64().unwrap() as usize;
+                if !srcs[i].killed.get() && !joins[i].is_finished() {
+                    joins[i].abort();
+                    srcs[i].killed.set(true);
+                }
+                Value::Null
+            } else {
+                test.cmd(c, &srcs, &finished)
+            };
             for _ in 0..4 {
                 tokio::task::yield_now().await;
             }
@@ -292,7 +328,14 @@ fn run_sim(case: &Value) -> Value {
     let mut test = Test { barriers: vec![], handles: vec![] };
     let dead: Vec<bool> = vec![false; nsrc];
     for c in case["script"].as_array().unwrap() {
-        let r = {
+        let r = if c[0] == "kill" {
+            let i = c[1].as_u64().unwrap() as usize;
+            if !srcs[i].killed.get() {
+                sim.crash(format!("s{i}"));
+                srcs[i].killed.set(true);
+            }
+            Value::Null
+        } else {
             let fin = |i: usize| dead[i];
             test.cmd(c, &srcs, &fin)
         };
